@@ -36,7 +36,7 @@ type prop struct {
 	Quick     tierCfg
 	Thor      tierCfg
 	Level     string
-	Hang      bool // a timeout with goroutines blocked in osm frames is a violation
+	Hang      bool // informational: the property has per-case hang watchdogs inside its check
 	Assume    []string
 	Fuzz      []fuzzTarget // native fuzz targets, thorough tier only
 	BuildTags string
@@ -297,11 +297,11 @@ func main() {
 			pth := saveCrash(p.ID, "race", so, extract(logText, "WARNING: DATA RACE", 12000))
 			viols = append(viols, violation{Sub: "process", Signature: p.ID + "/data-race", Message: "race detector report (shard " + strconv.Itoa(k) + "): " + firstLine(extract(logText, "WARNING: DATA RACE", 300)), Replay: pth})
 		case so.timedOut:
-			if p.Hang && blockedInOSM(logText) {
-				pth := saveCrash(p.ID, "hang", so, extract(logText, "SIGQUIT", 30000))
-				viols = append(viols, violation{Sub: "process", Signature: p.ID + "/hang", Message: "deadline exceeded with goroutines blocked in paulmach/osm frames", Replay: pth})
-			} else if !hasViol {
-				inconclusive = append(inconclusive, fmt.Sprintf("shard %d timed out after %ds (log %s)", k, cfg.TimeoutS, so.log))
+			// A whole-process deadline is never a violation: every hang-sensitive
+			// property has its own per-case watchdog that reports a blocked call with
+			// the case that caused it; a slow machine must not be read as a hang.
+			if !hasViol {
+				inconclusive = append(inconclusive, fmt.Sprintf("shard %d timed out after %ds (log kept at %s)", k, cfg.TimeoutS, keepLog(p.ID, so.log)))
 			}
 		case crashedInOSM(logText):
 			pth := saveCrash(p.ID, "crash", so, extractCrash(logText))
@@ -521,19 +521,6 @@ func crashedInOSM(log string) bool {
 			}
 		}
 		return false
-	}
-	return false
-}
-
-func blockedInOSM(log string) bool {
-	i := strings.Index(log, "SIGQUIT")
-	if i < 0 {
-		return false
-	}
-	for _, b := range strings.Split(log[i:], "\n\n") {
-		if strings.Contains(b, "goroutine ") && strings.Contains(b, "github.com/paulmach/osm") {
-			return true
-		}
 	}
 	return false
 }
